@@ -8,6 +8,7 @@
 // its shape. An in-flight probe at both ends of the pipeline parks inside the pipeline on every parkEvery-th entry and
 // waits to be woken by *another thread entering*: with the lock in place nobody can, without it somebody does at once.
 #include "common/gen.h"
+#include <QCoreApplication>
 
 #include "qtlogger/qtlogger.h"
 
@@ -109,6 +110,8 @@ QJsonObject generate()
     static const char *subjects[] = { "logger", "bare", "nested" };
     c["subject"] = chance(15) ? "install" : subjects[pick(0, 2)];
     c["rounds"] = 50 + sized(0, 350); // subject "install": fresh Logger installed under traffic, this many times
+    c["wasAsync"] = chance(25) ? pick(1, 3) : 0; // subjects other than "install": the handler was moved to its own thread and back before the producers start
+    c["gap"] = chance(50);            // ... some of the loggers go away without restoring the handler, and the threads log in the gap
     const int producers = chance(15) ? pick(17, 32) : pick(2, 16);
     c["producers"] = producers;
     c["perProducer"] = 1 + sized(0, chance(10) ? 199 : 40);
@@ -170,13 +173,17 @@ std::string runInstallRace(const QJsonObject &c)
     // the window of a broken install is a few instructions wide: a replay repeats the shape often enough to meet it again
     const int P = qMin(6, qMax(2, c["producers"].toInt())), rounds = getenv("VERIF_REPLAY") ? qMax(5000, c["rounds"].toInt()) : c["rounds"].toInt();
     g_foreignDelivered = 0;
-    std::atomic<long> produced { 0 }, sinkDelivered { 0 };
-    std::atomic<bool> stop { false }, park { false };
+    std::atomic<long> produced { 0 }, sinkDelivered { 0 }, gapProduced { 0 };
+    std::atomic<bool> stop { false }, park { false }, gapMode { false };
     std::atomic<int> parked { 0 };
+    const size_t nProducers = size_t(P);
+    std::vector<std::atomic<long>> perProducer(nProducers), perProducerGap(nProducers);
+    for (auto &x : perProducer) x = 0;
+    for (auto &x : perProducerGap) x = 0;
     QtMessageHandler before = qInstallMessageHandler(countingForeignHandler);
     std::vector<std::thread> threads;
     for (int p = 0; p < P; p++)
-        threads.emplace_back([&] {
+        threads.emplace_back([&, p] {
             while (!stop) {
                 if (park) {
                     parked++;
@@ -184,23 +191,56 @@ std::string runInstallRace(const QJsonObject &c)
                     parked--;
                     continue;
                 }
+                if (gapMode) { qInfo("g"); gapProduced++; perProducerGap[size_t(p)]++; std::this_thread::yield(); continue; }
                 qInfo("x");
                 produced++;
+                perProducer[size_t(p)]++;
             }
         });
     auto sink = FunctionHandlerPtr::create([&](LogMessage &) { sinkDelivered++; return true; });
-    for (int r = 0; r < rounds; r++) {
+    auto parkAll = [&] { park = true; while (parked.load() < P) std::this_thread::yield(); };
+    auto unparkAll = [&] { park = false; while (parked.load() > 0) std::this_thread::yield(); };
+    std::string gapFailure;
+    long gapRounds = 0;
+    for (int r = 0; r < rounds && gapFailure.empty(); r++) {
         Logger *lg = new Logger();
         *lg << sink;
         lg->installMessageHandler();
         spinFor(r % 7 == 0 ? 30 : 2);
-        park = true;
-        while (parked.load() < P) std::this_thread::yield();
+        parkAll();
+        if (c["gap"].toBool() && r % 16 == 5) {
+            // A logger that goes away WITHOUT restoring the previous handler: the library's handler stays installed with no active
+            // logger, and what the threads log in that gap goes nowhere (no logger, no sink). Then a new logger is installed. From
+            // the moment its installation has returned, every message of every thread - also of the threads that logged in the gap -
+            // must reach the new logger's sink, exactly once, and nothing else.
+            gapRounds++;
+            delete lg;
+            for (auto &x : perProducerGap) x = 0;
+            gapMode = true;
+            unparkAll();
+            for (;;) { bool all = true; for (auto &x : perProducerGap) if (x.load() < 2) all = false; if (all) break; std::this_thread::yield(); }
+            parkAll();
+            gapMode = false;
+            lg = new Logger();
+            *lg << sink;
+            lg->installMessageHandler();
+            const long s0 = sinkDelivered.load(), f0 = g_foreignDelivered.load(), p0 = produced.load();
+            for (auto &x : perProducer) x = 0;
+            unparkAll();
+            for (;;) { bool all = true; for (auto &x : perProducer) if (x.load() < 5) all = false; if (all) break; std::this_thread::yield(); }
+            parkAll();
+            const long ds = sinkDelivered.load() - s0, df = g_foreignDelivered.load() - f0, dp = produced.load() - p0;
+            if (ds != dp || df != 0)
+                gapFailure = "a logger was destroyed without restoring the handler, " + std::to_string(P) + " threads logged while no logger was active, then a new logger was installed: of the "
+                        + std::to_string(dp) + " messages logged after its installation had returned " + std::to_string(ds) + " reached its sink and " + std::to_string(df)
+                        + " the handler installed before the first logger (every one of them qualifies for the sink, exactly once)";
+        }
         Logger::restorePreviousMessageHandler();
         delete lg;
-        park = false;
-        while (parked.load() > 0) std::this_thread::yield();
+        unparkAll();
     }
+    count("install_rounds_with_a_gap_without_active_logger", gapRounds);
+    count("messages_logged_while_no_logger_was_active", gapProduced.load());
     stop = true;
     for (auto &t : threads) t.join();
     qInstallMessageHandler(before);
@@ -210,6 +250,7 @@ std::string runInstallRace(const QJsonObject &c)
     cls("calls_overlapped", true);
     cls("park_during_overlap", false);
     noteCase(c, sinkDelivered.load() > 0 && g_foreignDelivered.load() > 0);
+    if (!gapFailure.empty()) return gapFailure;
     if (produced.load() != sinkDelivered.load() + g_foreignDelivered.load())
         return "installing a Logger under traffic: " + std::to_string(produced.load()) + " messages were logged, " + std::to_string(g_foreignDelivered.load())
                 + " reached the previously installed handler and " + std::to_string(sinkDelivered.load()) + " the logger's sink: "
@@ -284,8 +325,17 @@ std::string runOnce(const QJsonObject &c)
             *logger << pw << pn;
         }
         *logger << mkSink(sinkAll) << probeOut;
-        logger->installMessageHandler();
     }
+    if (c["wasAsync"].toInt() > 0) {
+        // The synchronous subject has a history: it was asynchronous for a while and is synchronous again before the producers are even
+        // created (their threads may get the identity - pthread id, stack - of the worker thread that is gone). No message is logged here.
+        for (int k = 0; k < c["wasAsync"].toInt(); k++) {
+            if (bare) { bare->moveToOwnThread(); spinFor(300); bare->resetOwnThread(); }
+            else { logger->moveToOwnThread(); spinFor(300); logger->resetOwnThread(); }
+        }
+        cls("subject_was_asynchronous_before", true);
+    }
+    if (logger) logger->installMessageHandler();
 
     // ---- producers ----
     static const QtMsgType kT[4] = { QtDebugMsg, QtInfoMsg, QtWarningMsg, QtCriticalMsg };
@@ -439,5 +489,10 @@ std::string runOnce(const QJsonObject &c)
 
 int main()
 {
+    // an application object: without one moveToOwnThread() stays synchronous, and the "was asynchronous before" prelude would do nothing
+    static int argc = 1;
+    static char arg0[] = "rc_concurrent";
+    static char *argv[] = { arg0, nullptr };
+    QCoreApplication app(argc, argv);
     return harnessMain("C02 concurrent logging: exactly-once, exclusive, ordered", generate, run);
 }
